@@ -18,6 +18,20 @@ func init() {
 
 // serveFunc: the per-connection goroutine started by the CONNECT handler.
 func (c *Ctx) serveFunc(handler *ssa.Function) (*ssa.Function, *ssa.Go) {
+	if f, g := c.serveFuncIn(handler); f != nil {
+		return f, g
+	}
+	for _, cl := range core.CallsIn(handler) {
+		if cl.Static != nil && cl.Static.Package() == handler.Package() && cl.Static.Parent() == nil {
+			if f, g := c.serveFuncIn(cl.Static); f != nil {
+				return f, g
+			}
+		}
+	}
+	return nil, nil
+}
+
+func (c *Ctx) serveFuncIn(handler *ssa.Function) (*ssa.Function, *ssa.Go) {
 	for _, b := range handler.Blocks {
 		for _, in := range b.Instrs {
 			if g, ok := in.(*ssa.Go); ok {
@@ -44,52 +58,46 @@ func checkC11(c *Ctx) {
 		f := td.fn
 		bad := ""
 		for _, tp := range td.paths {
-			if len(tp.regDeletes) != 1 || !td.ownID(tp.regDeletes[0].Arg(0)) {
+			if len(tp.regDeletes) != 1 || !td.ownID(tp.p, tp.regDeletes[0].Arg(0)) {
 				bad = fmt.Sprintf("%d registry deletes keyed by the session's own id on path [%s], want exactly 1", len(tp.regDeletes), tp.atoms())
 			}
 		}
 		ru1.Check(bad == "" && len(td.paths) > 0, "registry delete in "+c.fname(f), c.where(f, f), fmt.Sprintf("once on each of %d paths", len(td.paths)), bad)
-		// subscriptions loop
-		bad = "no loop over session.GetTopics() deletes the subscriptions"
-		loops := core.Loops(f)
-		for _, sd := range core.CallsTo(f, td.subsDelete) {
-			l := core.InnermostLoop(loops, sd.Instr.Block())
-			if l == nil {
-				bad = "subscriptions are deleted outside a loop over the remembered filters"
+		// subscriptions loop (possibly in a helper): every first-caller path reads GetTopics() of this session; every
+		// subscription delete is keyed by the own id, takes its filter from GetTopics() and sits in a loop
+		bad = ""
+		nDel := 0
+		for _, tp := range td.paths {
+			if !(tp.first.known && tp.first.val) {
 				continue
 			}
-			elemOK := depReaches(sd.Arg(1), func(v ssa.Value) bool {
-				cv, ok := v.(*ssa.Call)
-				return ok && core.CallOf(cv).Is(td.getTopics) && core.Strip(cv.Call.Args[0]) == ssa.Value(f.Params[td.sessIdx])
-			})
-			if !elemOK {
-				bad = "the filter deleted is not an element of session.GetTopics()"
-				continue
-			}
-			if !td.ownID(sd.Arg(0)) {
-				bad = "the subscription delete is not keyed by the session's own id"
-				continue
-			}
-			// the loop lies on every first-caller path
-			onAll := true
-			for _, tp := range td.paths {
-				if tp.first.known && tp.first.val {
-					has := false
-					for _, b := range tp.p.Blocks {
-						if b == l.Header {
-							has = true
-						}
-					}
-					if !has {
-						onAll = false
-					}
+			reads := false
+			for _, pc := range tp.p.Calls() {
+				if pc.Is(td.getTopics) && core.Strip(tp.p.Resolve(core.Strip(pc.Common.Args[0]))) == ssa.Value(f.Params[td.sessIdx]) {
+					reads = true
 				}
 			}
-			if !onAll {
-				bad = "some teardown path skips the subscription clean-up loop"
-				continue
+			if !reads {
+				bad = "a teardown path skips the subscription clean-up (never reads the session's remembered filters) [" + tp.atoms() + "]"
 			}
-			bad = ""
+			for _, sd := range tp.subDeletes {
+				nDel++
+				if !td.ownID(tp.p, sd.Arg(1-1)) {
+					bad = "the subscription delete is not keyed by the session's own id"
+				}
+				if !depReaches(sd.Arg(1), func(v ssa.Value) bool {
+					cv, ok := v.(*ssa.Call)
+					return ok && core.CallOf(cv).Is(td.getTopics)
+				}) {
+					bad = "the filter deleted is not an element of session.GetTopics()"
+				}
+				if core.InnermostLoop(core.Loops(sd.Instr.Parent()), sd.Instr.Block()) == nil {
+					bad = "subscriptions are deleted outside a loop over the remembered filters"
+				}
+			}
+		}
+		if nDel == 0 && bad == "" {
+			bad = "no teardown path deletes a subscription"
 		}
 		ru1.Check(bad == "", "subscription clean-up in "+c.fname(f), c.where(f, f), "for each element of GetTopics(): Subscriptions.Delete(session.ID(), elem)", bad)
 		bad = ""
@@ -104,7 +112,7 @@ func checkC11(c *Ctx) {
 			n++
 			cnt := 0
 			for _, rd := range tp.recDeletes {
-				if td.ownID(rd.Arg(0)) {
+				if td.ownID(tp.p, rd.Arg(0)) {
 					cnt++
 				}
 			}
@@ -148,7 +156,7 @@ func checkC11(c *Ctx) {
 			}
 			ru3.Check(bad == "", "re-arm in the read loop of "+c.fname(serve), c.where(serve, serve), "ExtendDeadline on every iteration", bad)
 		}
-		paths, err := core.EnumPaths(handler, core.PathOpts{})
+		paths, err := c.handlerPaths(handler, sa)
 		if err == nil {
 			ru3.Evals(len(paths))
 			bad3, bad8, n := "", "", 0
